@@ -62,7 +62,9 @@ func c36ReadResult(fe *pgproto3.Frontend) c36Result {
 		case *pgproto3.CommandComplete:
 			res.Tag = string(m.CommandTag)
 		case *pgproto3.ErrorResponse:
-			res.Err = m.Message
+			if res.Err == "" { // the first error decides (after a failed Parse the server still answers Bind/Execute)
+				res.Err = m.Message
+			}
 		case *pgproto3.ReadyForQuery:
 			return res
 		}
@@ -94,6 +96,17 @@ func c36Dial(addr string) (*c36Client, error) {
 func (c *c36Client) Query(sql string) c36Result {
 	if err := c.fe.Send(&pgproto3.Query{String: sql}); err != nil {
 		return c36Result{IOErr: err}
+	}
+	return c36ReadResult(c.fe)
+}
+
+// QueryExtended runs the statement through Parse/Bind/Execute/Sync (unnamed
+// statement and portal), the path of handlePreparedQuery.
+func (c *c36Client) QueryExtended(sql string) c36Result {
+	for _, m := range []pgproto3.FrontendMessage{&pgproto3.Parse{Query: sql}, &pgproto3.Bind{}, &pgproto3.Execute{}, &pgproto3.Sync{}} {
+		if err := c.fe.Send(m); err != nil {
+			return c36Result{IOErr: err}
+		}
 	}
 	return c36ReadResult(c.fe)
 }
@@ -193,9 +206,9 @@ func c36Bytea(b []byte) ([]byte, bool, error) {
 //     between min(n,|M|) and sum_p min(n,|M_p|) rows, and per partition a
 //     suffix of that partition's matching offsets.
 func c36Judge(l *c36Layout, q *c36Query, M []c36Rec, res c36Result) *c36Verdict {
-	limit := l.DefLimit
+	limit, limitSrc := l.DefLimit, "default_limit"
 	if q.Limit > 0 {
-		limit = q.Limit
+		limit, limitSrc = q.Limit, "LIMIT"
 	}
 	if q.Kind == "count" {
 		want := strconv.Itoa(len(M))
@@ -351,10 +364,10 @@ func c36Judge(l *c36Layout, q *c36Query, M []c36Rec, res c36Result) *c36Verdict 
 	if len(res.Rows) != wantN {
 		if len(res.Rows) < wantN {
 			r, _ := missing()
-			return &c36Verdict{"missing_rows", fmt.Sprintf("%d rows returned, %d expected (%d match, limit %d); e.g. partition=%d offset=%d ts=%d in %s is missing", len(res.Rows), wantN, len(M), limit, r.Part, r.Off, r.TS, r.SegKey),
+			return &c36Verdict{"missing_rows", fmt.Sprintf("%d rows returned, %d expected (%d match, %s %d); e.g. partition=%d offset=%d ts=%d in %s is missing", len(res.Rows), wantN, len(M), limitSrc, limit, r.Part, r.Off, r.TS, r.SegKey),
 				map[string]any{"missing_segment": r.SegKey, "missing_partition": r.Part, "missing_offset": r.Off, "missing_ts": r.TS}}
 		}
-		return &c36Verdict{"too_many_rows", fmt.Sprintf("%d rows returned, %d expected (%d match, limit %d)", len(res.Rows), wantN, len(M), limit), nil}
+		return &c36Verdict{"too_many_rows", fmt.Sprintf("%d rows returned, %d expected (%d match, %s %d)", len(res.Rows), wantN, len(M), limitSrc, limit), nil}
 	}
 	if q.Order != "" {
 		desc := q.Order == "desc"
@@ -376,7 +389,7 @@ func c36Judge(l *c36Layout, q *c36Query, M []c36Rec, res c36Result) *c36Verdict 
 		want = want[:wantN]
 		for i := range want {
 			if want[i] != gotTS[i] {
-				return &c36Verdict{"order_limit_wrong_rows", fmt.Sprintf("ORDER BY _ts %s LIMIT %d: row %d has ts %d, the sorted matching set has %d there", q.Order, limit, i, gotTS[i], want[i]), nil}
+				return &c36Verdict{"order_limit_wrong_rows", fmt.Sprintf("ORDER BY _ts %s with %s %d: row %d has ts %d, the sorted matching set has %d there", q.Order, limitSrc, limit, i, gotTS[i], want[i]), nil}
 			}
 		}
 	}
@@ -520,6 +533,15 @@ func c36RunLayout(env *c36Env, caseNo int) error {
 	r.Seen("layout_shapes", shape)
 
 	for qi := 0; qi < env.queries; qi++ {
+		if qi == env.queries/2 && !l.ResCache && l.DiscTTL < 0 && l.Manifest == "" {
+			// nothing caches segment lists or results in this layout: the next listing must see the new set
+			added, completed := c36Grow(rng, env.s3, l)
+			for _, sg := range l.Segs {
+				segByKey[sg.Key] = sg
+			}
+			r.Count("segments_added_while_serving", int64(added))
+			r.Count("inflight_segments_completed_while_serving", int64(completed))
+		}
 		q := c36GenQuery(rng, l)
 		M := c36Matching(l, q)
 		feat := fmt.Sprintf("kind=%s part=%v off=%v%v ts=%s order=%s limit=%v tail=%v last=%s", q.Kind, q.Part != nil, q.OffMin != nil, q.OffMax != nil, q.TsForm, q.Order, q.Limit > 0, q.Tail > 0, q.Last)
@@ -535,7 +557,13 @@ func c36RunLayout(env *c36Env, caseNo int) error {
 
 		from := env.s3.LogLen(l.Bucket)
 		mode := "wire"
-		res := cl.Query(q.Text)
+		var res c36Result
+		if rng.Intn(5) == 0 {
+			mode = "wire-extended"
+			res = cl.QueryExtended(q.Text)
+		} else {
+			res = cl.Query(q.Text)
+		}
 		if res.IOErr != nil {
 			r.Inconclusive(fmt.Sprintf("case %d: connection error on %q: %v", caseNo, q.Text, res.IOErr))
 			return nil
@@ -627,11 +655,17 @@ func c36RunLayout(env *c36Env, caseNo int) error {
 			r.Violation(cls, v.Summary+" :: "+q.Text, replay(res, mode, extra))
 		}
 		// a second run of a cacheable statement must give the same answer (result cache / discovery cache)
-		if v == nil && mode == "wire" && rng.Intn(4) == 0 {
-			res2 := cl.Query(q.Text)
+		if v == nil && rng.Intn(4) == 0 {
+			var res2 c36Result
+			if mode == "exec" {
+				parsed, _ := c36Parsed(l.Topic, q)
+				res2 = c36Exec(ctx, srv, parsed, q.Text)
+			} else {
+				res2 = cl.Query(q.Text)
+			}
 			if res2.IOErr == nil && res2.Err == "" {
 				if v2 := c36Judge(l, q, M, res2); v2 != nil {
-					r.Violation("repeat_"+v2.Class, "second run: "+v2.Summary+" :: "+q.Text, replay(res2, "wire-repeat", nil))
+					r.Violation("repeat_"+v2.Class, "second run: "+v2.Summary+" :: "+q.Text, replay(res2, mode+"-repeat", nil))
 				}
 				r.Count("queries_repeated", 1)
 			}
